@@ -6,7 +6,7 @@
    as approximations of exp(-iHt), local solver accuracy, the regularised inverse, allclose termination. *)
 From Coq Require Import QArith Qabs ZArith List Arith Bool Qcanon.
 Import ListNotations.
-From RV Require Import Base.CRing Gen.RkTableaux Gen.StepCtlConsts Gen.StepCtlGen Model.Rk Model.Prop Model.StepCtl Model.PsSweep
+From RV Require Import Base.CRing Gen.RkTableaux Gen.StepCtlConsts Gen.StepCtlGen Gen.SweepSched Model.Rk Model.Prop Model.StepCtl Model.PsSweep
                        Model.Trunc Gen.Trunc Model.Dims Proofs.PropProofs Proofs.StepCtlProofs Proofs.PsSweepProofs Proofs.DimsProofs.
 Close Scope Q_scope.
 Close Scope Qc_scope.
@@ -335,6 +335,15 @@ Theorem C09_dims_le_limit_ps2 : forall (kept : nat -> Z) (qr : nat -> Z -> Z) (M
   (ps2_dims_run kept qr (ps2_step n to_right q dt) d b <= M b)%Z.
 Proof. exact ps2_dims_le_limit. Qed.
 Print Assumptions C09_dims_le_limit_ps2.
+
+(* which limit the two-site update reads: `_update_mps(., [l, l+1], ...)` hands mtrunc_idx_single (GENERATED from mp.py by tx/sweepsched.py,
+   shared with C08) to compute_m_trunc, and _fixed_m_trunc reads max_dims[fixed_bond ...]: in BOTH sweep directions that is bond l+1 of
+   bond_dims, the bond between the two sites of the pair -- so `kept l <= M l` of C09_dims_le_limit_ps2 is about the pair's own bond, also for
+   non-uniform per-bond limits *)
+Theorem C09_ps2_trunc_bond_is_pair_bond : forall (to_right : bool) (l : Z),
+  fixed_bond to_right (mtrunc_idx_single to_right [l; (l + 1)%Z]) = (l + 1)%Z.
+Proof. exact (fun to_right l => match to_right with true => eq_refl | false => eq_refl end). Qed.
+Print Assumptions C09_ps2_trunc_bond_is_pair_bond.
 
 (* non-vacuity: a spectrum of three values cut at a bond with limit 2 keeps 2; the interpreter's bound of an RK4 step *)
 Example C09_dims_example :
